@@ -152,7 +152,7 @@ def h_glue_trunc(env):
     l, f, m, t = P['l'], P['f'], 3, 1
     hh = 1 << (l + f - 1)
     a = env.fresh('a', -hh, hh)
-    sim = simnet.Sim(env, m, t, ['-K', '30'] + ([] if P['prss'] else ['--no-prss']))
+    sim = simnet.Sim(env, m, t, ['-K', str(P.get('k', 30))] + ([] if P['prss'] else ['--no-prss']))
     l1.install_ideal_bits(env, sim)
 
     async def prog(party):
@@ -168,6 +168,9 @@ def h_glue_trunc(env):
         return
     env.encoded(type(sim.parties[0].mpc).trunc)
     for pid, (v, p) in enumerate(res):
+        if pid:
+            # all parties open the same value (a modular identity); once discharged it is an assumption for the bound below
+            env.lemma(f'same_value@{pid}', v == res[0][0])
         s = kit.signed(env, v, p)
         env.check(f'trunc_floor_or_ceil@{pid}', (s * (1 << f) - a < (1 << f)) & (a - s * (1 << f) < (1 << f)))
 
@@ -198,7 +201,7 @@ def instances(tier):
         out.append(Inst(f'linear[{l}:{f}]', h_linear, dict(l=l, f=f), timeout=900))
     for op in ('lt', 'ge', 'eq'):
         out.append(Inst(f'cmp.{op}[4:2]', h_cmp, dict(l=4, f=2, op=op), timeout=1800, max_paths=20000))
-    for prss in (False,):     # PRSS variant: per-share division by 2^f leaves goals the solver does not decide (see DESIGN.md, denominators)
-        out.append(Inst(f'glue:trunc[m=3,6:3,prss={int(prss)}]', h_glue_trunc, dict(l=6, f=3, prss=prss), timeout=900))
+    for prss in ((False,) if tier != 'quick' else ()):     # thorough only: solver time varies 5..60 s with machine load (per-share division by 2^f); PRSS variant: per-share division by 2^f leaves goals the solver does not decide (see DESIGN.md, denominators)
+        out.append(Inst(f'glue:trunc[m=3,6:3,prss={int(prss)}]', h_glue_trunc, dict(l=6, f=3, prss=prss, k=30), timeout=900))
     out.append(Inst('twin_trunc_is_floor', h_twin, {}, twin=True, expect='violated'))
     return out
